@@ -199,6 +199,32 @@ func intTermAt(rel, recv, fn, left string) int64 {
 	return res
 }
 
+// stmtCount: number of `break` / `return` statements in a function (the read path's loops have a
+// fixed shape: an added early exit changes what the model's fold over all sources mirrors).
+func stmtCount(rel, recv, fn, kind string) int64 {
+	fd := findFunc(rel, recv, fn)
+	if fd == nil {
+		return -1
+	}
+	var n int64
+	ast.Inspect(fd.Body, func(x ast.Node) bool {
+		switch v := x.(type) {
+		case *ast.BranchStmt:
+			if kind == "break" && v.Tok == token.BREAK {
+				n++
+			}
+		case *ast.ReturnStmt:
+			if kind == "return" {
+				n++
+			}
+		case *ast.FuncLit:
+			return false
+		}
+		return true
+	})
+	return n
+}
+
 type fact struct {
 	Name  string `json:"name"`
 	Kind  string `json:"kind"`
@@ -291,6 +317,11 @@ func main() {
 	addOp("op_expired", "iterator.go", "", "isDeletedOrExpired", "expiresAt", "time.Now().Unix()")
 	addOp("op_parseTs_len", "y/y.go", "", "ParseTs", "len(key)", "8")
 	addOp("op_parseKey_len", "y/y.go", "", "ParseKey", "len(key)", "8")
+	for _, f := range [][4]string{{"levels.go", "levelsController", "get", "lcget"}, {"db.go", "DB", "get", "dbget"}, {"level_handler.go", "levelHandler", "get", "lhget"}} {
+		for _, k := range []string{"break", "return"} {
+			facts = append(facts, fact{"n_" + k + "_" + f[3], "nat", strconv.FormatInt(stmtCount(f[0], f[1], f[2], k), 10), f[0] + ":" + f[1] + "." + f[2] + " [#" + k + "]"})
+		}
+	}
 	// manifest rewrite rule
 	addOp("op_manifest_rewrite_threshold", "manifest.go", "manifestFile", "addChanges", "Deletions", "deletionsRewriteThreshold")
 
